@@ -66,10 +66,11 @@ def shard(ctx):
     strat = st.tuples(st.one_of(progs.programs(profile='shape'), progs.programs(profile='shape', level=(3, 12)), progs.programs(profile='syntax')), api.option_sets())
     hyp_run(ctx, 'iface', strat, prop, ctx.n(4000, 150000))
 
-    if fleet.interpreter_path('3.11') is None:
-        ctx.note('interpreter_missing:3.11')
+    wv = ['3.11', '3.8', '3.9', '3.10', '3.13', '3.11', '3.10', '3.9'][ctx.index % 8]
+    if fleet.interpreter_path(wv) is None:
+        ctx.note('interpreter_missing:' + wv)
         return
-    w = fleet.get_worker('3.11')
+    w = fleet.get_worker(wv)
 
     def prop_w(case):
         prog, opts = case
@@ -80,17 +81,17 @@ def shard(ctx):
         req.update(f)
         rep = w.call(req)
         if rep.get('timeout') or rep.get('worker_died'):
-            ctx.note('worker_timeout_or_death:3.11')
+            ctx.note('worker_timeout_or_death:' + wv)
             return
         if 'harness_error' in rep:
-            raise RuntimeError('worker 3.11: %s' % rep['harness_error'])
+            raise RuntimeError('worker %s: %s' % (wv, rep['harness_error']))
         if rep.get('resolver_disagrees_with_symtable'):
             raise RuntimeError('resolver disagrees with symtable (harness bug): %r on %r' % (rep['resolver_disagrees_with_symtable'], prog.source))
         if rep['status'] in ('domain', 'raises'):
             ctx.evaluations += 1
             return
-        ctx.case(sha(prog.source, api.opts_key(opts), '3.11'), bool(rep.get('renamed')), classes=['interp:3.11'])
+        ctx.case(sha(prog.source, api.opts_key(opts), wv), bool(rep.get('renamed')), classes=['interp:' + wv])
         if rep['status'] == 'violation':
-            ctx.fail({'source': prog.source, 'opts': opts, 'interp': '3.11'}, tuple(rep['signature']) + ('3.11',), rep['detail'])
+            ctx.fail({'source': prog.source, 'opts': opts, 'interp': wv}, tuple(rep['signature']) + (wv,), rep['detail'])
 
-    hyp_run(ctx, 'w311', st.tuples(progs.programs(profile='shape', level=(3, 11)), api.option_sets()), prop_w, ctx.n(1200, 50000))
+    hyp_run(ctx, 'w' + wv, st.tuples(progs.programs(profile='shape', level=fleet.level_of(wv)), api.option_sets()), prop_w, ctx.n(1200, 50000))
